@@ -214,7 +214,16 @@ let c18_judge c obs =
   | _ -> "bad observation-shape"
 
 (* ---------------- C19 ---------------- *)
-let c19_strs = ["hello"; "<b>bold</b> & more"; "h\xc3\xa9llo w\xc3\xb6rld \xe2\x9c\x93"; "tab\tand\nnewline"; ""; "quote\"s' and \\"; "\xe2\x80\xa8sep"; "a=b&c=d"]
+let c19_strs = ["hello"; "<b>bold</b> & more"; "h\xc3\xa9llo w\xc3\xb6rld \xe2\x9c\x93"; "tab\tand\nnewline"; ""; "quote\"s' and \\"; "\xe2\x80\xa8sep"; "a=b&c=d";
+                "a\xffb\x00c"; String.make 70000 'z']    (* not valid UTF-8 with a NUL; longer than any copy buffer *)
+let c19_cbs = ["cb"; "a.b"; "$x"; "f_1"]
+(* a long body is reported by its length and digest (the harness does the same) *)
+let sbody (b : n list) =
+  if List.length b > 2048 then begin
+    let buf = Buffer.create 70000 in
+    List.iter (fun c -> Buffer.add_char buf (Char.chr (int_of_n c land 255))) b;
+    L [A "long"; sint (List.length b); A (Digest.to_hex (Digest.string (Buffer.contents buf)))]
+  end else sstr b
 let bytes_of s = List.init (String.length s) (fun i -> n_of_int (Char.code s.[i]))
 let c19_run c =
   let preset_of = function A "none" -> None | p -> Some (str p) in
@@ -224,7 +233,7 @@ let c19_run c =
   match c with
   | L (A "h" :: A helper :: st :: vk :: preset :: encj :: encx :: prior) ->
     let status = z_of_int (int st) and vk = int vk and preset = preset_of preset in
-    let sbytes = bytes_of (List.nth c19_strs (vk mod 8)) in
+    let sbytes = bytes_of (List.nth c19_strs (vk mod 10)) in
     let r0 = rsp_init preset [] in
     (* optional: a status recorded by an earlier handler (SetStatus, nothing written yet) *)
     let r0 = match prior with [p] -> { r0 with rw = write_header (z_of_int (int p)) r0.rw } | _ -> r0 in
@@ -232,12 +241,12 @@ let c19_run c =
     let plain ct data = let r = ctx_blob status ct data r0 in (r, fin r) in
     let out r w body nerr loc = L [A "h"; sint (log_status w); sct r.ctype; body; sint nerr; sstr loc] in
     (match helper with
-     | "text" -> let (r, w) = plain ct_text sbytes in out r w (sstr (log_body w)) 0 []
-     | "html" | "htmlstring" -> let (r, w) = plain ct_html sbytes in out r w (sstr (log_body w)) 0 []
-     | "jsonbytes" -> let (r, w) = plain ct_json sbytes in out r w (sstr (log_body w)) 0 []
-     | "blob" -> let (r, w) = plain (str_of_ascii "application/x-blob") sbytes in out r w (sstr (log_body w)) 0 []
-     | "stream" -> let (r, w) = plain (str_of_ascii "application/x-stream") sbytes in out r w (sstr (log_body w)) 0 []
-     | "streamerr" -> let (r, w) = plain (str_of_ascii "application/x-stream") sbytes in out r w (sstr (log_body w)) 1 []
+     | "text" -> let (r, w) = plain ct_text sbytes in out r w (sbody (log_body w)) 0 []
+     | "html" | "htmlstring" -> let (r, w) = plain ct_html sbytes in out r w (sbody (log_body w)) 0 []
+     | "jsonbytes" -> let (r, w) = plain ct_json sbytes in out r w (sbody (log_body w)) 0 []
+     | "blob" -> let (r, w) = plain (str_of_ascii "application/x-blob") sbytes in out r w (sbody (log_body w)) 0 []
+     | "stream" -> let (r, w) = plain (str_of_ascii "application/x-stream") sbytes in out r w (sbody (log_body w)) 0 []
+     | "streamerr" -> let (r, w) = plain (str_of_ascii "application/x-stream") sbytes in out r w (sbody (log_body w)) 1 []
      | "nocontent" -> let r = ctx_no_content r0 in out r (fin r) (sstr []) 0 []
      | "redirect" ->
        let code = if int st >= 300 && int st < 400 then status else z_of_int 301 in
@@ -245,14 +254,14 @@ let c19_run c =
      | "httperror" ->
        let r = ctx_http_error sbytes status r0 in
        let r = { r with ctype = Some ct_text } in     (* http.Error sets its own Content-Type *)
-       out r (fin r) (sstr (log_body (fin r))) 0 []
+       out r (fin r) (sbody (log_body (fin r))) 0 []
      | "json" | "jsonp" | "xml" | "xmlindent" ->
        let helper = if helper = "xmlindent" then "xml" else helper in
        let ok = if helper = "xml" then bool encx else bool encj in
        let enc _ = if ok then Some [n_of_int 120] else None in
        let f = match helper with
          | "json" -> render_json enc ()
-         | "jsonp" -> render_jsonp enc (str_of_ascii "cb") ()
+         | "jsonp" -> render_jsonp enc (str_of_ascii (List.nth c19_cbs (vk mod 4))) ()
          | _ -> render_xml enc [n_of_int 60] () in
        let r = respond status f r0 in
        let body = if not ok then L [A "enc-error"]
@@ -262,10 +271,10 @@ let c19_run c =
   | L [A "rdr"; A name; vk; preset; encj; encx] ->
     (* the renderers of pkg/render used on their own, on a plain ResponseWriter *)
     let vk = int vk and preset = preset_of preset in
-    let sbytes = bytes_of (List.nth c19_strs (vk mod 8)) in
+    let sbytes = bytes_of (List.nth c19_strs (vk mod 10)) in
     let r0 = rsp_init preset [] in
     let out r body err = L [A "rdr"; sct r.ctype; body; sbool err] in
-    let blob ct = let r = render_blob ct sbytes r0 in out r (sstr (log_body (ensure r.rw))) false in
+    let blob ct = let r = render_blob ct sbytes r0 in out r (sbody (log_body (ensure r.rw))) false in
     (match name with
      | "text" | "plain" | "textbytes" -> blob ct_text
      | "html" | "htmlbytes" -> blob ct_html
@@ -276,7 +285,7 @@ let c19_run c =
        let enc _ = if ok then Some [n_of_int 120] else None in
        let (r, good) = (match name with
            | "json" | "jsonindented" -> render_json enc ()
-           | "jsonp" -> render_jsonp enc (str_of_ascii "cb") ()
+           | "jsonp" -> render_jsonp enc (str_of_ascii (List.nth c19_cbs (vk mod 4))) ()
            | _ -> render_xml enc [n_of_int 60] ()) r0 in
        let body = if not good then L [A "enc-error"]
          else if isx && vk mod 6 <> 2 then L [A "dec"; A "na"] else L [A "dec"; A "ok"] in
@@ -291,7 +300,7 @@ let c19_run c =
     let rec upto = function [] -> [] | x :: r -> if int_of_n x = 59 then [] else x :: upto r in
     let accepts = List.filter (fun a -> a <> []) (List.map (fun p -> trim_space (upto p)) (split [] [] (str acc))) in
     let is_str = vk mod 6 = 0 || vk mod 6 = 3 in
-    let sval = List.nth c19_strs ((vk / 6) mod 8) in
+    let sval = List.nth c19_strs ((vk / 6) mod 10) in
     let ct d = match preset with Some c -> sstr c | None -> sstr d in
     (match auto_pick accepts with
      | None -> L [A "auto"; ct []; A "empty"; A "t"]
